@@ -241,6 +241,8 @@ class Reconcile:
                         slice = child_parent.get_slice(child_idx, child_idx - start + end, None,
                                                        trivia=self.trivia_fst_get)
 
+                        slice.verify()  # catch changed primitives which the structure check does not see
+
                     except Exception:  # verification failed, need to do one AST at a time
                         pass
 
@@ -321,6 +323,8 @@ class Reconcile:
 
                         slice = child_parent.get_slice(child_idx, child_off_idx + end, child_field,
                                                        trivia=self.trivia_fst_get)
+
+                        slice.verify()  # catch changed primitives which the structure check does not see
 
                     except Exception:  # verification failed, need to do one AST at a time
                         pass
@@ -458,6 +462,8 @@ class Reconcile:
             if nodef:  # FST from different tree, need to verify it before using
                 try:
                     copy = nodef.verify(reparse=False).copy(trivia=self.trivia_fst_get)
+
+                    copy.verify()  # the structure check above does not see changed primitives (identifiers, constants, operators), reparse the copy to make sure its source still is what the nodes say
 
                 except Exception:  # verification failed, fall through to pure AST
                     pass
